@@ -136,7 +136,7 @@ func runChaos(prop, part, tier string, seed uint64, idx int) core.Result {
 					ch.log("duplicate truncate to %s (term %d, head %d): err=%v", f, req.Term, req.HeadEntryId.Offset, err)
 					if err == nil {
 						r.Count("duplicate_truncates_accepted", 1)
-						if had && res.HeadEntryId.Offset < acked {
+						if had && res.HeadEntryId.Offset < acked && res.HeadEntryId.Offset < before {
 							r.Violate(prop+"/duplicate-truncate-cut-acknowledged-entries", fmt.Sprintf("%s had acknowledged offset %d on a stream of term %d (log end %d); a re-delivered Truncate of the same term cut its log back to %d", f, acked, ch.term, before, res.HeadEntryId.Offset), map[string]any{"schedule": ch.tail(40)})
 						}
 					}
